@@ -979,7 +979,21 @@ func (s *runtimeState) buildAuth(compiled config.Compiled) (*loadedAuth, error) 
 	forwardByRoute := make(map[string]*ingress.ForwardAuth, len(compiled.Routes))
 	for _, rt := range compiled.Routes {
 		if len(rt.AuthBasic) > 0 {
-			basicByRoute[rt.Path] = ingress.NewBasicAuth(rt.AuthBasic)
+			// A password written as a secret reference (env:, file:, raw:, vault:),
+			// as the documentation shows, stands for the referenced value - not
+			// for the reference text itself.
+			users := make(map[string]string, len(rt.AuthBasic))
+			for user, pass := range rt.AuthBasic {
+				if secrets.ValidateRef(pass) == nil {
+					b, err := secrets.LoadRef(pass)
+					if err != nil {
+						return nil, fmt.Errorf("route %q auth basic password of user %q: %w", rt.Path, user, err)
+					}
+					pass = string(b)
+				}
+				users[user] = pass
+			}
+			basicByRoute[rt.Path] = ingress.NewBasicAuth(users)
 		} else {
 			basicByRoute[rt.Path] = nil
 		}
